@@ -28,6 +28,7 @@ def run(ctx):
     from .c02 import vectorize_once
     vectorize_once(ctx, 'C01.R3')       # a per-well transfer applied twice debits / credits the shared side twice
     ownership(ctx)
+    accumulator_is_view(ctx, 'C01.R2')
     from .c13 import distinct_wells
     distinct_wells(ctx, 'C01.R3')       # wells that are one object all change when one of them receives something
     alias_writeback(ctx)
@@ -385,6 +386,43 @@ def writeback_locality(ctx):
                    fact=f"key is {'the stored selection' if ok_key else show(key, 30)}; {vfact}",
                    why='a cell other than the one read / addressed is written', key=f"write-back key in {name}")
     floor(ctx, 'Slicer write-backs', nwrites, 5)
+    # apply is a read-modify-write of the array itself, entry by entry: every normal path stores f(self.array[K]) back
+    # under K.  Going through get() first reads a *copy* for list selections (numpy fancy indexing), so nothing written
+    # to it reaches the array; get() followed by set() reads every entry before any is written.
+    api = sl.methods['apply']
+    aff = ctx.flow(api.qualname)
+
+    def _direct_write(n):
+        if isinstance(n, ast.Call) and isinstance(n.func, ast.Attribute) and n.func.attr == '__setitem__' and \
+                unparse(n.func.value) == 'self.array':
+            return True
+        return isinstance(n, ast.Subscript) and isinstance(n.ctx, ast.Store) and unparse(n.value) == 'self.array'
+    def _min_writes(stmts):
+        # fewest direct writes on a path through stmts; a loop over the listed entries runs at least once
+        total = 0
+        for st in stmts:
+            if isinstance(st, ast.If):
+                total += min(_min_writes(st.body), _min_writes(st.orelse))
+            elif isinstance(st, (ast.For, ast.While, ast.With, ast.Try)):
+                total += _min_writes(st.body)
+            elif isinstance(st, (ast.Return, ast.Raise)):
+                total += sum(1 for x in ast.walk(st) if _direct_write(x))
+                break
+            elif isinstance(st, (ast.FunctionDef, ast.ClassDef)):
+                continue
+            else:
+                total += sum(1 for x in ast.walk(st) if _direct_write(x))
+        return total
+    lo = _min_writes(api.node.body)
+    hi = sum(1 for x in ast.walk(api.node) if _direct_write(x))
+    indirect = [unparse(c, 50) for c, s_, b_ in aff.calls if isinstance(c.func, ast.Attribute) and
+                c.func.attr in ('set', 'get') and unparse(c.func.value) == 'self']
+    ok_rmw = lo >= 1
+    ctx.ob('C01.R3', api, api.node.lineno, 'Slicer.apply stores f(self.array[K]) back into self.array[K] on every path',
+           ok_rmw, fact=f"direct writes to self.array per path: ({lo}, {hi})" + (f"; goes through {indirect[:2]}" if indirect else ''),
+           why='the results are written into what get() returned (a copy for a list of wells: they never reach the plate) '
+               'or every entry is read before any is written (a well listed twice is updated from one snapshot)',
+           key='apply is not a direct read-modify-write')
     g = sl.methods['get']
     fg = ctx.flow('Slicer.get')
     reads = [(c, s, b) for c, s, b in fg.calls if isinstance(c.func, ast.Attribute) and c.func.attr == '__getitem__']
@@ -602,3 +640,66 @@ def _op_source(value):
             if isinstance(c, ast.Call) and call_name(c)[1] in ('transfer', 'create_solution', 'create_solution_from'):
                 return c, v.index
     return None
+
+
+COPYING = {'flatten', 'copy', 'tolist', 'astype', 'ravel', 'take', 'compress', 'repeat', 'choose'}
+
+
+def accumulator_is_view(ctx, rule):
+    """A per-well closure that accumulates into an element of an outer array (`acc[0] = ...`) changes the plate only if
+    `acc` is a view of the plate's array: what `get()` returns for a (row, column) selection, or a basic index of it.
+    `.flatten()`, `.copy()`, `numpy.array(..)`, `list(..)`, `.tolist()`, `.astype(..)`, `.ravel()` make a copy: the
+    receiving well is updated in the copy and the plate keeps its old contents.  An accumulator that is a fresh list
+    (`acc = [to]`) is fine when its element is read back after the loop."""
+    model = ctx.model
+    n = 0
+    for q in ('PlateSlicer._transfer', 'Container._transfer_slice'):
+        fi = model.func(q)
+        outer_defs = {}
+        for st in walk_no_nested(fi.node):
+            if isinstance(st, ast.Assign) and len(st.targets) == 1 and isinstance(st.targets[0], ast.Name):
+                outer_defs.setdefault(st.targets[0].id, []).append(st)
+        for sub in ast.walk(fi.node):
+            if not isinstance(sub, (ast.FunctionDef, ast.Lambda)) or sub is fi.node:
+                continue
+            local = {a.arg for a in sub.args.args} | {x.id for x in ast.walk(sub) if isinstance(x, ast.Name) and
+                                                      isinstance(x.ctx, ast.Store)}
+            for st in ast.walk(sub):
+                if not isinstance(st, ast.Assign):
+                    continue
+                targets = []
+                for t in st.targets:
+                    targets.extend(t.elts if isinstance(t, ast.Tuple) else [t])
+                for t in targets:
+                    base = t
+                    while isinstance(base, ast.Subscript):
+                        base = base.value
+                    if not (isinstance(t, ast.Subscript) and isinstance(base, ast.Name) and base.id not in local
+                            and base.id in outer_defs):
+                        continue
+                    for d in outer_defs[base.id]:
+                        if d.lineno < sub.lineno and not any(x is d for x in ast.walk(sub)):
+                            pass
+                        v = d.value
+                        n += 1
+                        if isinstance(v, (ast.List, ast.Tuple)):
+                            read_back = any(isinstance(x, ast.Subscript) and isinstance(x.ctx, ast.Load) and
+                                            isinstance(x.value, ast.Name) and x.value.id == base.id and
+                                            not any(y is x for y in ast.walk(sub)) for x in ast.walk(fi.node))
+                            ctx.ob(rule, fi, d.lineno, f"{q}: accumulator `{base.id}` (a fresh list) is read back after the wells were visited",
+                                   read_back, fact=unparse(d, 60), why='the receiving object is updated inside the list only: '
+                                   'the result handed back is the old one', key=f"accumulator not read back: {base.id}")
+                            continue
+                        copies = [c.func.attr for c in ast.walk(v) if isinstance(c, ast.Call) and
+                                  isinstance(c.func, ast.Attribute) and c.func.attr in COPYING]
+                        copies += [unparse(c.func) for c in ast.walk(v) if isinstance(c, ast.Call) and
+                                   unparse(c.func) in ('numpy.array', 'np.array', 'numpy.copy', 'np.copy', 'list', 'tuple',
+                                                       'numpy.asarray', 'copy', 'deepcopy')]
+                        from_get = any(isinstance(c, ast.Call) and isinstance(c.func, ast.Attribute) and c.func.attr == 'get'
+                                       for c in ast.walk(v)) or 'array' in unparse(v) or 'wells' in unparse(v)
+                        ctx.ob(rule, fi, d.lineno, f"{q}: accumulator `{base.id}` written by the per-well closure is a view of the plate's array",
+                               from_get and not copies, fact=unparse(d, 60) + (f" (copying: {copies})" if copies else ''),
+                               why='the closure updates an element of a copy: the receiving well of the plate keeps its old '
+                                   'contents and what was taken from the source wells disappears',
+                               key=f"accumulator is a copy: {base.id}")
+    floor(ctx, 'accumulators of per-well closures', n, 2)
